@@ -166,6 +166,24 @@ def f_cross_laws(s1, s2, s3):
     return fn
 
 
+def f_unit_spacelike(s1):
+    """unit() of a spacelike 4D vector: tau2 becomes -1 and the direction is kept"""
+
+    def fn(R):
+        lib = R.lib
+        a = R.vec(s1, "1")
+        ca = spec.cart(lib, a)
+        t2 = spec.tau2(lib, ca)
+        R.assume(t2 < 0)
+        u = a.unit()
+        k = lib.sqrt(-t2)
+        goals = [("unit-norm", G.eq(u.tau2, -1))]
+        goals += laws.same_vector(R, u, [x / k for x in ca], "unit-parallel", ref_is_cart=True)
+        return goals
+
+    return fn
+
+
 def f_unit_and_norm(s1):
     d = len(s1) + 1
 
@@ -226,5 +244,7 @@ def families(tier="quick"):
             add(f"assoc/{n1}|{n1}|{n1}", f_assoc(s1, s1, s1), [K + f"{p}.add"])
             add(f"scale/{n1}|{lanes.sysname(s2)}", f_scale_laws(s1, s2), [K + f"{p}.scale", K + f"{p}.add", ufunc])
             add(f"scale/{n1}|{n1}", f_scale_laws(s1, s1), [K + f"{p}.scale", K + f"{p}.add", ufunc])
+            if d == 4 and s1[2] == "t":
+                add(f"unit-spacelike/{n1}", f_unit_spacelike(s1), [K + "lorentz.unit", K + "lorentz.tau2"])
             add(f"unit-norm/{n1}", f_unit_and_norm(s1), [K + f"{p}.unit", ufunc, K + ("planar.rho" if d == 2 else "spatial.mag" if d == 3 else "lorentz.tau")])
     return fams
